@@ -168,6 +168,21 @@ def judge(cv, spec, stats=None):
     except Exception as ex:
         cv.renew()
         return "unbuildable:" + type(ex).__name__, {}
+    # history: the converters are shared by all trees of a shard (as the compilers share one
+    # converter for all conditions of a problem); additionally every compound child of the tree is
+    # converted on its own first, so that "a sub-expression was converted earlier, now it
+    # re-appears below another operator / under a negation" is always part of the history
+    for ch in U.children(spec):
+        if isinstance(ch, tuple) and ch and ch[0] in CONNECTIVES:
+            try:
+                ce = X.build(cv.h.world, ch)
+                cv.nnf.get_nnf_expression(ce)
+                cv.dnf.get_dnf_expression(ce)
+            except X.HarnessError:
+                raise
+            except Exception:
+                cv.renew()
+                e = X.build(cv.h.world, spec)
     axes = U.interp_axes([spec], VALS)
     table = []
     for It in U.interpretations(None, axes=axes):
